@@ -2,14 +2,26 @@ From Coq Require Import List NArith Bool.
 From Coq.Strings Require Import Byte.
 From PM Require Import Base Text Model.
 Import ListNotations.
-(* ---------------- C16: the serde form is the string form ---------------- *)
+(* ---------------- C16: the serde form is the string form ----------------
+   The serde data model as far as this crate looks at it.  A deserializer may hand a string to the visitor in three ways
+   (transient &str, borrowed &'de str, owned String); serde's default visit_borrowed_str and visit_string forward to visit_str,
+   and the crate's visitor implements visit_str only (checked on the source by the translator: exactly one visit_* method,
+   deserialize_str, collect_str).  Every other kind of value reaches a default visit_* method, which is an error. *)
 Section C16S. Variable cfg : config.
 Context {T E : Type} (sh : shape T E).
-Inductive value := VStr (s : bytes) | VOther.                 (* the serde data model, as far as this crate looks at it *)
-Definition ser (x : T * parts) : value := VStr (format cfg sh (fst x) (snd x)).      (* Serialize = collect_str(Display) *)
-Definition de (err_not_string : E) (v : value) : result E (T * parts) :=            (* Deserialize = visit_str -> from_str *)
-  match v with VStr s => parse cfg sh s | VOther => Err err_not_string end.
-Theorem C16_string_iff e s : de e (VStr s) = parse cfg sh s. Proof. reflexivity. Qed.
+Inductive str_flavour := Transient | Borrowed | Owned.
+Inductive value := VStr (f : str_flavour) (s : bytes) | VOther.
+Definition visit_str (s : bytes) : result E (T * parts) := parse cfg sh s.                 (* the one method the visitor implements *)
+Definition visit (err_not_string : E) (v : value) : result E (T * parts) :=
+  match v with
+  | VStr Transient s => visit_str s
+  | VStr Borrowed s => visit_str s          (* default visit_borrowed_str -> visit_str *)
+  | VStr Owned s => visit_str s             (* default visit_string -> visit_str *)
+  | VOther => Err err_not_string
+  end.
+Definition ser (x : T * parts) : value := VStr Owned (format cfg sh (fst x) (snd x)).      (* Serialize = collect_str(Display) *)
+Definition de := visit.
+Theorem C16_string_iff e f s : de e (VStr f s) = parse cfg sh s. Proof. destruct f; reflexivity. Qed.
 Theorem C16_other e : de e VOther = Err e. Proof. reflexivity. Qed.
 (* the JSON round trip is C01 *)
 Theorem C16_roundtrip e x : parse cfg sh (format cfg sh (fst x) (snd x)) = Ok x -> de e (ser x) = Ok x.
